@@ -13,13 +13,17 @@ from . import ir, lanes, build
 from catalogue import configs as C
 
 CTYPE = dict((t.name, t.c) for t in C.ALL)
-ARGN = {'b': ['a', 'b', 'c', 'd'], 'm': ['m', 'n'], 's': ['s', 't']}
+ARGN = {'b': ['a', 'b', 'c', 'd'], 'm': ['m', 'n'], 's': ['s', 't'], 'u': ['u', 'v'], 'p': ['p', 'q'], 'P': ['o', 'r']}
 
 
 def variants_of(op, ty):
     if op.variants is None:
         return [{}]
-    return op.variants(ty)
+    out = []
+    for v in op.variants(ty):
+        if v not in out:
+            out.append(v)
+    return out
 
 
 def wname(op, ty, var):
@@ -34,7 +38,7 @@ def wrapper_line(op, ty, var):
     names = []
     decl = []
     body = []
-    cnt = {'b': 0, 'm': 0, 's': 0}
+    cnt = {'b': 0, 'm': 0, 's': 0, 'u': 0, 'p': 0, 'P': 0}
     for k in op.params:
         nm = ARGN[k][cnt[k]]
         cnt[k] += 1
@@ -47,8 +51,17 @@ def wrapper_line(op, ty, var):
             body.append('M_<%s> %s(%s_);' % (ct, nm, nm))
         elif k == 's':
             decl.append('%s %s' % (ct, nm))
-    rt = {'b': 'R_<%s>' % ct, 'm': 'Q_<%s>' % ct, 's': ct, 'bool': 'bool', 'u64': 'uint64_t', 'int': 'int'}[op.ret]
-    expr = op.expr.format(T=ct, **var)
+        elif k == 'u':
+            decl.append('uint64_t %s' % nm)
+        elif k == 'p':
+            decl.append('const %s* %s' % (op.ptr_type(ty) if hasattr(op, 'ptr_type') and op.ptr_type else ct, nm))
+        elif k == 'P':
+            decl.append('%s* %s' % (op.ptr_type(ty) if hasattr(op, 'ptr_type') and op.ptr_type else ct, nm))
+    if op.ret == 'void':
+        expr = op.expr.format(T=ct, TN=ty.name, **var)
+        return 'extern "C" void %s(%s) { %s %s; }' % (wname(op, ty, var), ', '.join(decl), ' '.join(body), expr), names
+    rt = {'b': 'R_<%s>' % ct, 'm': 'Q_<%s>' % ct, 's': ct, 'bool': 'bool', 'u64': 'uint64_t', 'int': 'int', 'size': 'size_t'}.get(op.ret) or op.ret.format(T=ct)
+    expr = op.expr.format(T=ct, TN=ty.name, **var)
     return 'extern "C" %s %s(%s) { %s return %s; }' % (rt, wname(op, ty, var), ', '.join(decl), ' '.join(body), expr), names
 
 
@@ -88,6 +101,14 @@ def arg_bvs(cfg, fn, ty, names):
                     raise lanes.Unsupported('mask argument passed as %s' % a['ty'])
                 out.append(T.cat(*[T.rep(b, W) for b in bits]))
             specargs.append(bits)
+        elif k == 'u':
+            # contract of from_mask: the mask is an n-bit value (the library asserts mask < 2^n)
+            bv = T.cat(*([T.atom_bv(nm, i, 1) for i in range(n)] + [T.const(64 - n, 0)]))
+            out.append(bv)
+            specargs.append(bv)
+        elif k in ('p', 'P'):
+            out.append(lanes.Ptr('arg:' + nm, 0))
+            specargs.append(nm)
         elif k == 's':
             bv = T.atom_bv(nm, 0, W)
             if t.bits > W:   # small integers are promoted to i32 by the ABI (signext/zeroext)
@@ -141,9 +162,11 @@ def analyse_wrapper(mod, cfg, fn, op, ty, var, names):
     res = {'op': op.name, 'ty': ty.name, 'var': var, 'cfg': cfg.name}
     try:
         args, specargs, n = arg_bvs(cfg, fn, ty, names)
-        ev = lanes.Eval(mod, fn, args)
-        _orig = lanes.Eval.step
-
+        in_mem = {}
+        for (k, nm) in names:
+            if k in ('p', 'P'):
+                in_mem['arg:' + nm] = (op.mem_bits(ty) if getattr(op, 'mem_bits', None) else ty.bits)
+        ev = lanes.Eval(mod, fn, args, in_mem)
         ev.run()
     except lanes.NotStraightLine as e:
         res.update(status='undecided', why='control flow: %s' % e)
@@ -158,6 +181,8 @@ def analyse_wrapper(mod, cfg, fn, op, ty, var, names):
     if fm:
         res['fastmath'] = True
     ret = ev.ret
+    if getattr(op, 'whole', False):
+        return whole_check(res, op, ty, cfg, var, ev, specargs, n)
     if ret is None or isinstance(ret, lanes.Ptr) or isinstance(ret, dict):
         res.update(status='undecided', why='return value shape')
         return res
@@ -209,6 +234,23 @@ def analyse_wrapper(mod, cfg, fn, op, ty, var, names):
     res.update(status=klass, label='|'.join(sorted(labels)), deps_ok=deps_ok)
     if ev.assumed:
         res['assumed'] = len(ev.assumed)
+    return res
+
+
+def whole_check(res, op, ty, cfg, var, ev, specargs, n):
+    """operations whose result is not a per-lane map (reductions, mask(), all/any, memory): the spec function
+    receives the evaluator and returns (ok, label, class, explanation)"""
+    try:
+        ok, label, klass, why = op.spec(ty, cfg, n, specargs, ev, **var)
+    except lanes.Unsupported as e:
+        res.update(status='undecided', why='unsupported: %s' % e)
+        return res
+    if ok:
+        res.update(status=klass, label=label, deps_ok=True)
+    else:
+        got = ev.ret if (ev.ret is not None and not isinstance(ev.ret, (lanes.Ptr, dict))) else ()
+        res.update(status='mismatch', lane=None, got=T.fmt(got, 8)[:1500], want=label, diff_path='', diff_got=why[:600], diff_want=label,
+                   chain=src_of(got) if got else [], fp=hashlib.sha1((T.fmt(got, 60) + why).encode()).hexdigest()[:12], deps_ok=True)
     return res
 
 
